@@ -22,13 +22,15 @@ pub fn check(tier: Tier) -> Check {
         Part::new("C03/handover", json!({}), 0, 60),
         // long bursts: many small packets without a pause (a yield after N items must come with a wakeup)
         Part::new("C03/burst", json!({"max": tier.pick(1025, 16385)}), 0, 120),
+        // what the reader does with its buffer after a big packet
+        Part::new("C03/after-big", json!({"sizes": if tier == Tier::Quick { vec![9000, 70_000, 1_100_000] } else { vec![9000, 70_000, 300_000, 1_100_000, 2_100_000] }}), 0, 120),
         Part::new("C03/aligned", json!({"shifts": tier.pick(48, 80), "wide": tier.pick(1100, 2200), "all_cuts": tier == Tier::Thorough}), 0, tier.pick(50, 900)),
     ];
     Check {
         also_rel: true,
         property: "C03",
         level: "model_checking",
-        rule: "(S1) every 2- and 3-packet sequence over {PINGRESP, short PUBACK, SUBACK, inbound PUBLISH QoS 0/1 with a small payload} up to the stated total length x all 2^(n-1) compositions of the byte stream into reads x {all chunks immediately available, Pending between chunks}; (S1e) every 1-2-packet stream up to a small total length cut short after every prefix by end-of-stream / read error, under every composition of the prefix; (S2) PUBLISH packets of 126..131, 510..516, 1022..1028, 1534..1540, 2046..2052, 4096, 16383..16390 bytes (quick: 127..129, 511..514, 1023..1026, 1536, 2047..2050, 16384..16386; thorough also 70000; a 2097160-byte packet (four-byte remaining length) with every single cut (thorough: every pair of cuts) near the interesting offsets) preceded by 0-2 small packets x {every single cut, every pair of cuts within +-3 of packet boundaries and multiples of 512, every uniform chunk size 1..=40 and 511..513, 1023..1025} x both reader modes; (S3) a stream of seven packets (a lead-in PUBLISH whose size takes every value in a window of 48 (thorough: 80) consecutive sizes - and, for the deliveries in one read or in chunks of >= 255 bytes, in a window of 1100 (thorough: 2200) -, then PUBLISH packets of about 700, 200, 118, 20, 30 and 620 bytes), so that every later packet boundary - and with it the start of a fixed header and of a multi-byte remaining length - falls on every alignment against the 512-byte read step and the 1024-byte allocation, delivered in one read, under every single cut near packet boundaries and multiples of 256 (thorough: every single cut) and in uniform chunks of 1, 2, 3, 5, 7, 64, 255, 256, 257, 511, 512, 513, 1019, 1024 bytes, both reader modes; (S5) bursts of 33, 65, 129, 257, 1025 (thorough: up to 16385) small packets (QoS 0 to a stream, QoS 1 to a stream, mixed without a stream) in one read, in 512-byte reads and in one read per packet, all available at once, optionally followed by end-of-stream; (S4) hand-over from connect() to run(): the read that carries the CONNACK also carries the first k bytes (every k near both ends, every 97th in between) of six following packet sequences, the rest arrives once run() is served; run in the overflow-checked and the wrapping-arithmetic build; oracle: reference framing at every quiescent point, no unread visible bytes at quiescence, no end-of-stream before the transport's, no zero-length read; non-trivial = a packet was split across reads".into(),
+        rule: "(S1) every 2- and 3-packet sequence over {PINGRESP, short PUBACK, SUBACK, inbound PUBLISH QoS 0/1 with a small payload} up to the stated total length x all 2^(n-1) compositions of the byte stream into reads x {all chunks immediately available, Pending between chunks}; (S1e) every 1-2-packet stream up to a small total length cut short after every prefix by end-of-stream / read error, under every composition of the prefix; (S2) PUBLISH packets of 126..131, 510..516, 1022..1028, 1534..1540, 2046..2052, 4096, 16383..16390 bytes (quick: 127..129, 511..514, 1023..1026, 1536, 2047..2050, 16384..16386; thorough also 70000; a 2097160-byte packet (four-byte remaining length) with every single cut (thorough: every pair of cuts) near the interesting offsets) preceded by 0-2 small packets x {every single cut, every pair of cuts within +-3 of packet boundaries and multiples of 512, every uniform chunk size 1..=40 and 511..513, 1023..1025} x both reader modes; (S3) a stream of seven packets (a lead-in PUBLISH whose size takes every value in a window of 48 (thorough: 80) consecutive sizes - and, for the deliveries in one read or in chunks of >= 255 bytes, in a window of 1100 (thorough: 2200) -, then PUBLISH packets of about 700, 200, 118, 20, 30 and 620 bytes), so that every later packet boundary - and with it the start of a fixed header and of a multi-byte remaining length - falls on every alignment against the 512-byte read step and the 1024-byte allocation, delivered in one read, under every single cut near packet boundaries and multiples of 256 (thorough: every single cut) and in uniform chunks of 1, 2, 3, 5, 7, 64, 255, 256, 257, 511, 512, 513, 1019, 1024 bytes, both reader modes; (S5) bursts of 33, 65, 129, 257, 1025 (thorough: up to 16385) small packets (QoS 0 to a stream, QoS 1 to a stream, mixed without a stream) in one read, in 512-byte reads and in one read per packet, all available at once, optionally followed by end-of-stream; (S6) after a big packet (9 000 / 70 000 / 1 100 000 bytes, thorough also 300 000 / 2 100 000; retained by a stream or not) delivered in fragments of 1000 / 4096 bytes / whole, the read that completes it also carries 0 / 1 / 2 / 3 / all bytes of the next packet (one- and two-byte remaining length), then nothing / a spurious poll of the context task / a request of another caller, then the rest and one more packet; (S4) hand-over from connect() to run(): the read that carries the CONNACK also carries the first k bytes (every k near both ends, every 97th in between) of six following packet sequences, the rest arrives once run() is served; run in the overflow-checked and the wrapping-arithmetic build; oracle: reference framing at every quiescent point, no unread visible bytes at quiescence, no end-of-stream before the transport's, no zero-length read; non-trivial = a packet was split across reads".into(),
         assumptions: vec!["packets are well-formed (malformed input is C04)".into()],
         parts,
     }
@@ -149,6 +151,117 @@ fn burst(name: String, params: Value) -> Scenario {
     })
 }
 
+/// A big packet (9 000 / 70 000 / 1 100 000 bytes; retained by a live stream, or unretained: no / an
+/// unknown subscription identifier) arrives in fragments; the read that completes it also carries
+/// the first k bytes of the next packet (k = 0: nothing, 1: the type byte, 2-3: into a multi-byte
+/// remaining length, or all of it); then - after a pause, optionally with a spurious poll of the
+/// context task or a request of another caller in between - the rest. Whatever the reader does with
+/// its buffer after a big packet (shrink, swap, keep), nothing already received may be lost.
+pub fn after_big(prop: &'static str, name: String, params: Value) -> Scenario {
+    let sizes: Vec<usize> = params["sizes"]
+        .as_array()
+        .map(|a| a.iter().map(|x| x.as_u64().unwrap() as usize).collect())
+        .unwrap_or_else(|| vec![9000, 70_000]);
+    Box::new(move |chz, ex| {
+        let size = sizes[chz.choose(sizes.len())];
+        let retained = chz.choose(3); // 0: live stream, 1: no subscription identifier, 2: unknown one
+        let frag = [1000usize, 4096, usize::MAX][chz.choose(3)];
+        let k_choice = chz.choose(5);
+        let between = chz.choose(3); // 0: nothing, 1: spurious poll of the context task, 2: a ping request
+        let next_two_byte_len = chz.choose(2) == 1;
+        let mut sys = Sys::new(prop, &name, chz);
+        sys.params = params.clone();
+        let Some(sid) = setup(&mut sys) else {
+            return sys.report(ex, &[]);
+        };
+        let subids: Vec<u32> = match retained {
+            0 => vec![sid],
+            1 => vec![],
+            _ => vec![4242],
+        };
+        let big = SPacket::Publish {
+            dup: false,
+            qos: 0,
+            retain: false,
+            topic: "in/big".into(),
+            pid: None,
+            props: subids.iter().map(|s| Prop::var(P_SUBSCRIPTION_ID, *s)).collect(),
+            payload: (0..size).map(|i| (i * 7 % 253) as u8).collect(),
+        };
+        let next = if next_two_byte_len {
+            inbound(1, false, 11, &[sid], &"n".repeat(300))
+        } else {
+            inbound(1, false, 11, &[sid], "next")
+        };
+        let last = inbound(0, false, 0, &[sid], "last");
+        let b1 = big.encode();
+        let b2 = next.encode();
+        let b3 = last.encode();
+        let k = match k_choice {
+            0 => 0,
+            1 => 1,
+            2 => 2,
+            3 => 3.min(b2.len()),
+            _ => b2.len(),
+        };
+        // the big packet in fragments; its last fragment is short (fewer than 512 bytes missing) and
+        // carries k bytes of the next packet
+        let mut pos = 0;
+        let tail = 300.min(b1.len() - 1);
+        sys.events.push(format!(
+            "big PUBLISH of {} bytes ({}), fragments of {}, the last read also carries {} byte(s) of the next packet; in between: {}",
+            b1.len(),
+            ["retained by a stream", "no subscription identifier", "unknown subscription identifier"][retained],
+            if frag == usize::MAX { "all".to_string() } else { frag.to_string() },
+            k,
+            ["nothing", "a spurious poll of the context task", "a ping request"][between]
+        ));
+        sys.classes.push("AfterBig".into());
+        while pos < b1.len() - tail {
+            let end = (pos.saturating_add(frag)).min(b1.len() - tail);
+            sys.w.deliver(b1[pos..end].to_vec());
+            sys.transitions += 1;
+            sys.sync();
+            if sys.dead {
+                return sys.report(ex, &[]);
+            }
+            pos = end;
+        }
+        let mut lastread = b1[pos..].to_vec();
+        lastread.extend_from_slice(&b2[..k]);
+        sys.w.deliver(lastread);
+        sys.m.deliver(big.clone());
+        if k == b2.len() {
+            sys.m.deliver(next.clone());
+        }
+        sys.transitions += 1;
+        sys.sync();
+        if sys.dead {
+            return sys.report(ex, &[]);
+        }
+        match between {
+            1 => sys.apply(Ev::Spurious(crate::world::Tid::Ctx)),
+            2 => sys.apply(Ev::Start(OpSpec::Ping)),
+            _ => {}
+        }
+        if k < b2.len() && !sys.dead {
+            sys.w.deliver(b2[k..].to_vec());
+            sys.m.deliver(next.clone());
+            sys.transitions += 1;
+            sys.sync();
+        }
+        if !sys.dead {
+            sys.w.deliver(b3);
+            sys.m.deliver(last);
+            sys.transitions += 1;
+            sys.sync();
+        }
+        sys.finish();
+        sys.m.hits.push("packet-split");
+        sys.report(ex, &["packet-split"]);
+    })
+}
+
 /// The read that brings the CONNACK (or the AUTH challenge) also brings the first k bytes of what
 /// follows; the rest arrives once run() is being served. Nothing may be lost at the hand-over.
 fn handover(name: String, params: Value) -> Scenario {
@@ -218,6 +331,9 @@ fn handover(name: String, params: Value) -> Scenario {
 pub fn scenario(name: &str, params: &Value) -> Scenario {
     let params = params.clone();
     let name = name.to_string();
+    if name == "C03/after-big" {
+        return after_big("C03", name, params);
+    }
     if name == "C03/burst" {
         return burst(name, params);
     }
